@@ -135,8 +135,28 @@ def main():
     results = []
     if os.path.exists(RES):
         results = json.load(open(RES))
+    recheck = "--recheck" in sys.argv
     for p in props:
         for i in (1, 2):
+            if recheck:
+                old = [x for x in results if x["property"] == p and x["mutation"] == i]
+                if not old:
+                    # look in the other workers' files
+                    for f in glob.glob("/tmp/seed/results*.json"):
+                        old += [x for x in json.load(open(f)) if x["property"] == p and x["mutation"] == i and x.get("status") == "confirmed"]
+                if not old:
+                    continue
+                r = dict(old[-1])
+                prev = set(r.get("detected_by") or [])
+                prevchecks = dict(r.get("checks") or {})
+                run_checks(r, [q for q in extra if q in claimed])
+                r["detected_by"] = sorted(prev | set(r.get("detected_by") or []))
+                prevchecks.update(r.get("checks") or {})
+                r["checks"] = prevchecks
+                results = [x for x in results if not (x["property"] == p and x["mutation"] == i)] + [r]
+                print(p, f"m{i}", "rechecked | detected by:", r["detected_by"], flush=True)
+                json.dump(results, open(RES, "w"), indent=1)
+                continue
             r = confirm(p, i, skip_demo)
             if r.get("status") == "confirmed":
                 run = [q for q in ([p] + extra) if q in claimed]
